@@ -252,6 +252,7 @@ func (p *c16PKI) chain(k int, kind, flaw string, ski bool) []int {
 	now := time.Now()
 	from, to := now.Add(-time.Hour), now.Add(24*365*time.Hour)
 	lfrom, lto := from, to
+	rfrom, rto, ifrom, ito := from, to, from, to
 	usage := x509.KeyUsageDigitalSignature
 
 	switch flaw {
@@ -261,6 +262,10 @@ func (p *c16PKI) chain(k int, kind, flaw string, ski bool) []int {
 		lfrom, lto = now.Add(-48*time.Hour), now.Add(-24*time.Hour)
 	case "notyet":
 		lfrom, lto = now.Add(24*time.Hour), now.Add(48*time.Hour)
+	case "ca-expired": // the flaw sits on the issuing side: the whole chain has to be validated, not the leaf only
+		rfrom, rto = now.Add(-48*time.Hour), now.Add(-24*time.Hour)
+	case "int-expired":
+		ifrom, ito = now.Add(-48*time.Hour), now.Add(-24*time.Hour)
 	}
 
 	key := p.pool[k]
@@ -282,14 +287,14 @@ func (p *c16PKI) chain(k int, kind, flaw string, ski bool) []int {
 	case "self":
 		ids = []int{p.add(leaf, leaf, key.pub, key.priv, -1)}
 	case "ca":
-		root := p.tmpl("root", true, x509.KeyUsageCertSign, from, to)
+		root := p.tmpl("root", true, x509.KeyUsageCertSign, rfrom, rto)
 		rid := p.add(root, root, &caKey.PublicKey, caKey, -1)
 		ids = []int{p.add(leaf, p.certs[rid].cert, key.pub, caKey, rid), rid}
 	default:
-		root := p.tmpl("root", true, x509.KeyUsageCertSign, from, to)
+		root := p.tmpl("root", true, x509.KeyUsageCertSign, rfrom, rto)
 		rid := p.add(root, root, &caKey.PublicKey, caKey, -1)
 		imKey, _ := ecdsa.GenerateKey(elliptic.P256(), rand.Reader)
-		im := p.tmpl("intermediate", true, x509.KeyUsageCertSign, from, to)
+		im := p.tmpl("intermediate", true, x509.KeyUsageCertSign, ifrom, ito)
 		iid := p.add(im, p.certs[rid].cert, &imKey.PublicKey, caKey, rid)
 		ids = []int{p.add(leaf, p.certs[iid].cert, key.pub, imKey, iid), iid, rid}
 	}
@@ -332,6 +337,11 @@ type c16Config struct {
 	Cache  bool      `json:"cache"`
 	Header string    `json:"header,omitempty"` // custom header name, "" = default
 
+	// a second catalogue finalizer over the same key-store file and with the same configuration except for
+	// signer.name, executing on the same cache (its keys go to a registry of its own)
+	HasTwin bool   `json:"has_twin,omitempty"`
+	Twin    string `json:"twin,omitempty"`
+
 	// key stores of other jwt finalizers sharing the key-holder registry, created before / after this one
 	Before []c16Store `json:"before,omitempty"`
 	After  []c16Store `json:"after,omitempty"`
@@ -346,10 +356,15 @@ type c16Override struct {
 }
 
 type c16Op struct {
-	Kind  string       `json:"op"` // exec | reload | jwks
+	Kind  string       `json:"op"` // exec | reload | jwks | wait
 	Sub   string       `json:"sub,omitempty"`
-	Ov    *c16Override `json:"override,omitempty"` // exec on prototype.WithConfig(override) instead of the prototype
-	Store *c16Store    `json:"store,omitempty"`
+	Out   string       `json:"out,omitempty"`      // exec: value of Outputs()["x"]
+	Attr  string       `json:"attr,omitempty"`     // exec: value of Subject.Attributes["x"]
+	Twin  bool         `json:"twin,omitempty"`     // exec on the twin finalizer
+	Ov    *c16Override `json:"override,omitempty"` // exec on (prototype|twin).WithConfig(override)
+	Mids  []c16Store   `json:"mids,omitempty"`     // exec: reloads landing between Execute's cache lookup and Sign
+	Store *c16Store    `json:"store,omitempty"`    // reload
+	Wait  string       `json:"wait,omitempty"`     // wait: the cache's clock advances by this duration
 }
 
 type c16Case struct {
@@ -580,7 +595,17 @@ func (p *c16PKI) render(s c16Store) c16File {
 			leaf := p.certs[raw.Chain[0]].cert
 			ski = leaf.SubjectKeyId
 			now := time.Now()
-			raw.ChainOK = !now.Before(leaf.NotBefore) && !now.After(leaf.NotAfter)
+
+			// every certificate of the chain must be within its validity period, not the leaf only
+			raw.ChainOK = true
+
+			for _, id := range raw.Chain {
+				crt := p.certs[id].cert
+				if now.Before(crt.NotBefore) || now.After(crt.NotAfter) {
+					raw.ChainOK = false
+				}
+			}
+
 			raw.UsageOK = raw.ChainOK && leaf.KeyUsage&x509.KeyUsageDigitalSignature != 0
 		}
 
@@ -638,6 +663,7 @@ type c16Token struct {
 	Claims   []c16Claim `json:"claims"`
 	Verified bool       `json:"verified"` // go-jose against the JWKS body served right after
 	Header   string     `json:"header_name"`
+	Hdr      string     `json:"hdr"` // "" if it arrived in the configured upstream header, else where it arrived
 	Fresh    bool       `json:"fresh"`
 	Now      int64      `json:"-"`
 }
@@ -681,6 +707,48 @@ func (c16CertObserver) Start() error             { return nil }
 type c16ReqCtx struct {
 	ctx     context.Context //nolint:containedctx
 	headers map[string]string
+	outputs map[string]any
+}
+
+// the cache of the request context in the histories: entries expire on a virtual clock that only `wait`
+// operations advance, and a Get first lets the scheduled key-store reloads happen — Execute has computed its
+// cache key (under the signer's read lock) by then and has not yet called Sign
+type c16HookCache struct {
+	store   bool // is there a cache at all (else nothing is ever kept)
+	clock   time.Duration
+	entries map[string]c16HookEntry
+	pending func()
+}
+
+type c16HookEntry struct {
+	val     []byte
+	expires time.Duration
+}
+
+func (*c16HookCache) Start(context.Context) error { return nil }
+func (*c16HookCache) Stop(context.Context) error  { return nil }
+
+func (h *c16HookCache) Get(_ context.Context, key string) ([]byte, error) {
+	if h.pending != nil {
+		run := h.pending
+		h.pending = nil
+
+		run()
+	}
+
+	if e, ok := h.entries[key]; ok && h.store && h.clock < e.expires {
+		return e.val, nil
+	}
+
+	return nil, memory.ErrNoCacheEntry
+}
+
+func (h *c16HookCache) Set(_ context.Context, key string, val []byte, ttl time.Duration) error {
+	if h.store {
+		h.entries[key] = c16HookEntry{val: append([]byte(nil), val...), expires: h.clock + ttl}
+	}
+
+	return nil
 }
 
 func (c *c16ReqCtx) Request() *heimdall.Request       { return nil }
@@ -688,13 +756,14 @@ func (c *c16ReqCtx) AddHeaderForUpstream(n, v string) { c.headers[n] = v }
 func (c *c16ReqCtx) AddCookieForUpstream(_, _ string) {}
 func (c *c16ReqCtx) AppContext() context.Context      { return c.ctx }
 func (c *c16ReqCtx) SetPipelineError(_ error)         {}
-func (c *c16ReqCtx) Outputs() map[string]any          { return map[string]any{} }
+func (c *c16ReqCtx) Outputs() map[string]any          { return c.outputs }
 
 type c16Sys struct {
 	pki  *c16PKI
 	fin  *jwtFinalizer
+	twin *jwtFinalizer
 	mgmt http.Handler
-	cch  cache.Cache
+	cch  *c16HookCache
 	path string
 	hdr  string
 }
@@ -718,7 +787,11 @@ func c16TemplateText(cl []c16Tmpl) string {
 			v, _ := json.Marshal(c.Val)
 			sb.Write(v)
 		case "subj":
-			sb.WriteString("{{ quote .Subject.ID }}")
+			sb.WriteString("{{ .Subject.ID | toJson }}")
+		case "out":
+			sb.WriteString("{{ .Outputs.x | toJson }}")
+		case "attr":
+			sb.WriteString("{{ .Subject.Attributes.x | toJson }}")
 		default:
 			sb.WriteString(c.Val)
 		}
@@ -799,9 +872,20 @@ func c16Create(pki *c16PKI, dir string, c c16Case) (sys *c16Sys, status string) 
 		sys.hdr = c.Cfg.Header
 	}
 
-	if c.Cfg.Cache {
-		sys.cch, _ = memory.NewCache(nil, nil, nil)
+	if c.Cfg.HasTwin {
+		tcfg := c.Cfg
+		tcfg.Name = c.Cfg.Twin
+		tctx := &c16Ctx{w: &watcher.NoopWatcher{}, r: keyholder.VerifNewRegistry(), o: c16CertObserver{}}
+
+		twin, err := newJWTFinalizer(tctx, "c16-twin", c16RawConfig(tcfg, path))
+		if err != nil {
+			panic("twin: " + err.Error())
+		}
+
+		sys.twin = twin
 	}
+
+	sys.cch = &c16HookCache{store: c.Cfg.Cache, entries: map[string]c16HookEntry{}}
 
 	return sys, "ok"
 }
@@ -1058,25 +1142,48 @@ func c16OverrideRaw(ov c16Override) map[string]any {
 	return raw
 }
 
-func (s *c16Sys) exec(cfg c16Config, sub string, ov *c16Override, jtis map[string]int) (obs c16OpObs) {
+// onChanged lets every signer reading the key-store file reload it
+func (s *c16Sys) onChanged() {
+	s.fin.signer.OnChanged(zerolog.Nop())
+
+	if s.twin != nil {
+		s.twin.signer.OnChanged(zerolog.Nop())
+	}
+}
+
+func (s *c16Sys) exec(cfg c16Config, op c16Op, jtis map[string]int) (obs c16OpObs) {
 	defer func() {
+		s.cch.pending = nil
+
 		if r := recover(); r != nil {
 			obs = c16OpObs{Kind: "panic", Note: fmt.Sprint(r)}
 		}
 	}()
 
+	sub, ov := op.Sub, op.Ov
 	ctx := context.Background()
-	if s.cch != nil {
+
+	// without a cache and without reloads to place there is no cache in the context at all
+	if cfg.Cache || len(op.Mids) != 0 {
 		ctx = cache.WithContext(ctx, s.cch)
 	}
 
-	// the finalizer the rule uses: the catalogue one, or a variant of it created by the real WithConfig
-	var fin Finalizer = s.fin
+	// the finalizer the rule uses: the catalogue one or its twin, or a variant created by the real WithConfig
+	base := s.fin
+	if op.Twin {
+		if s.twin == nil {
+			return c16OpObs{Kind: "err", Note: "no twin"}
+		}
+
+		base = s.twin
+	}
+
+	var fin Finalizer = base
 
 	ttl := c16TTL(cfg)
 
 	if ov != nil {
-		variant, err := s.fin.WithConfig(c16OverrideRaw(*ov))
+		variant, err := base.WithConfig(c16OverrideRaw(*ov))
 		if err != nil {
 			return c16OpObs{Kind: "err", Note: "WithConfig: " + err.Error()}
 		}
@@ -1088,10 +1195,19 @@ func (s *c16Sys) exec(cfg c16Config, sub string, ov *c16Override, jtis map[strin
 		}
 	}
 
-	rc := &c16ReqCtx{ctx: ctx, headers: map[string]string{}}
+	if len(op.Mids) != 0 {
+		s.cch.pending = func() {
+			for _, st := range op.Mids {
+				s.pki.render(st).install(s.path)
+				s.onChanged()
+			}
+		}
+	}
+
+	rc := &c16ReqCtx{ctx: ctx, headers: map[string]string{}, outputs: map[string]any{"x": op.Out}}
 	before := len(jtis)
 	t0 := time.Now().UnixNano()
-	err := fin.Execute(rc, &subject.Subject{ID: sub, Attributes: map[string]any{"group": "users"}})
+	err := fin.Execute(rc, &subject.Subject{ID: sub, Attributes: map[string]any{"group": "users", "x": op.Attr}})
 	t1 := time.Now().UnixNano()
 
 	if err != nil {
@@ -1126,9 +1242,7 @@ func (s *c16Sys) exec(cfg c16Config, sub string, ov *c16Override, jtis map[strin
 	t.Header = s.hdr + "/" + scheme
 	t.Fresh = len(jtis) > before
 
-	if wrongHeader != "" {
-		t.Typ += "+upstream-header:" + wrongHeader
-	}
+	t.Hdr = wrongHeader
 
 	// the instant Sign read, as far as the token tells: iat, and from exp whether now+ttl crossed a second boundary
 	iat, _ := c16ClaimInt(t, "iat")
@@ -1153,7 +1267,7 @@ func (s *c16Sys) reload(st c16Store) (obs c16OpObs) {
 
 	// a successful load installs a freshly allocated key slice
 	before := s.fin.signer.Keys()
-	s.fin.signer.OnChanged(zerolog.Nop())
+	s.onChanged()
 	after := s.fin.signer.Keys()
 
 	if len(before) != 0 && len(after) != 0 && &before[0] == &after[0] {
@@ -1185,9 +1299,13 @@ func c16Run(pki *c16PKI, dir string, c c16Case) c16Obs {
 	for _, op := range c.Ops {
 		switch op.Kind {
 		case "exec":
-			obs.Ops = append(obs.Ops, sys.exec(c.Cfg, op.Sub, op.Ov, jtis))
+			obs.Ops = append(obs.Ops, sys.exec(c.Cfg, op, jtis))
 		case "reload":
 			obs.Ops = append(obs.Ops, sys.reload(*op.Store))
+		case "wait":
+			d, _ := time.ParseDuration(op.Wait)
+			sys.cch.clock += d
+			obs.Ops = append(obs.Ops, c16OpObs{Kind: "done"})
 		default:
 			obs.Ops = append(obs.Ops, sys.jwks())
 		}
@@ -1236,6 +1354,10 @@ func c16CoqVal(kind, val string) string {
 		return "(VInt " + vf.CoqZ(n) + ")"
 	case "subj":
 		return "VSubj"
+	case "out":
+		return "VOut"
+	case "attr":
+		return "VAttr"
 	case "jti":
 		return "(VJti " + val + ")"
 	default:
@@ -1257,6 +1379,7 @@ func (p *c16PKI) coqConfig(cfg c16Config) string {
 	}
 
 	return vf.CoqApp("CF", vf.CoqStr(cfg.KeyID), vf.CoqStr(cfg.Name), ttl, claims, vf.CoqBool(cfg.Cache),
+		vf.CoqOpt(cfg.HasTwin, vf.CoqStr(cfg.Twin)),
 		vf.CoqListOf(cfg.Before, p.coqFile), vf.CoqListOf(cfg.After, p.coqFile))
 }
 
@@ -1285,7 +1408,8 @@ func (p *c16PKI) coqToken(t *c16Token) string {
 	key := "(Priv " + p.coqKey(t.Signer) + ")"
 
 	return vf.CoqApp("TK", vf.CoqStr(t.Alg), vf.CoqStr(t.Kid), vf.CoqStr(t.Typ), key,
-		vf.CoqListOf(t.Claims, func(c c16Claim) string { return vf.CoqPair(vf.CoqStr(c.Name), c16CoqVal(c.Kind, c.Val)) }))
+		vf.CoqListOf(t.Claims, func(c c16Claim) string { return vf.CoqPair(vf.CoqStr(c.Name), c16CoqVal(c.Kind, c.Val)) }),
+		vf.CoqStr(t.Hdr))
 }
 
 func (p *c16PKI) coqJWK(j c16JWK) string {
@@ -1321,9 +1445,14 @@ func (p *c16PKI) coqCase(c c16Case, o c16Obs) string {
 				times[i] = vf.CoqPair(vf.CoqZ(oo.T0), vf.CoqZ(oo.T1))
 			}
 
-			ops[i] = vf.CoqApp("OExec", c16CoqOverride(op.Ov), vf.CoqStr(op.Sub), vf.CoqZ(now))
+			ops[i] = vf.CoqApp("OExec", vf.CoqBool(op.Twin), c16CoqOverride(op.Ov),
+				vf.CoqApp("RQ", vf.CoqStr(op.Sub), vf.CoqStr(op.Out), vf.CoqStr(op.Attr)), vf.CoqZ(now),
+				vf.CoqListOf(op.Mids, p.coqFile))
 		case "reload":
 			ops[i] = "(OReload " + p.coqFile(*op.Store) + ")"
+		case "wait":
+			d, _ := time.ParseDuration(op.Wait)
+			ops[i] = "(OWait " + vf.CoqZ(int64(d)) + ")"
 		default:
 			ops[i] = "OJwks"
 		}
@@ -1352,7 +1481,7 @@ func (p *c16PKI) coqCase(c c16Case, o c16Obs) string {
 // ---------------------------------------------------------------- generator
 
 var (
-	c16Subjects = []string{"alice", "bob", "carol d", "u-42"}
+	c16Subjects = []string{"alice", "bob", "carol d", "u-42", "Alice", " bob ", "", "ünï-cödé", `q"uo\te`, "ALICE", "bob\t"}
 	c16Reserved = []string{"sub", "iss", "iat", "nbf", "exp", "jti"}
 	c16Others   = []string{"aud", "scope", "email", "Sub", "SUB", "iss ", "groups", "x", "jt", "ſub", "typ", "kid"}
 	c16Kids     = []string{"key1", "key2", "k", "Key1", "sig-2024", "xkey1", "key10", "key"}
@@ -1421,7 +1550,15 @@ func c16GenBlock(r *vf.Rand, malformed bool) c16Block {
 		b.SKI = r.Chance(40)
 
 		if r.Chance(12) || (malformed && r.Chance(30)) {
-			b.Flaw = vf.Pick(r, []string{"nousage", "nousage", "expired", "notyet"})
+			b.Flaw = vf.Pick(r, []string{"nousage", "nousage", "expired", "notyet", "ca-expired", "int-expired"})
+
+			if b.Chain == "self" && strings.HasSuffix(b.Flaw, "-expired") {
+				b.Chain = vf.Pick(r, []string{"ca", "int"})
+			}
+
+			if b.Chain == "ca" && b.Flaw == "int-expired" {
+				b.Flaw = "ca-expired"
+			}
 		}
 	}
 
@@ -1576,7 +1713,7 @@ func c16GenTmpl(r *vf.Rand) []c16Tmpl {
 		case 2:
 			t.Kind, t.Val = "raw", vf.Pick(r, []string{`["a","b"]`, `{"a":1,"b":[true,null]}`, "true", "null", "1.5", `{"sub":"nested"}`})
 		case 3:
-			t.Kind = "subj"
+			t.Kind = vf.Pick(r, []string{"subj", "out", "attr"})
 		default:
 			t.Kind, t.Val = "str", "v"+fmt.Sprint(r.Intn(3))
 		}
@@ -1593,15 +1730,7 @@ func c16GenOverride(r *vf.Rand, cfg c16Config, malformed bool) *c16Override {
 	ov := &c16Override{}
 
 	if r.Chance(50) {
-		if cfg.Cache {
-			ov.TTL = vf.Pick(r, []string{"30s", "65s", "3m", "2s", "4500ms", "90500ms"}) // never close to the cache leeway + run time
-		} else {
-			ov.TTL = vf.Pick(r, []string{"30s", "1001ms", "2500ms", "7s", "5m", "1h", "90500ms"})
-		}
-
-		if ov.TTL == "30s" && cfg.Cache {
-			ov.TTL = "2m"
-		}
+		ov.TTL = vf.Pick(r, []string{"30s", "1001ms", "2500ms", "5s", "5001ms", "7s", "65s", "5m", "1h", "90500ms"})
 	}
 
 	if r.Chance(50) {
@@ -1683,12 +1812,16 @@ func c16Gen(pki *c16PKI, r *vf.Rand, malformed bool) c16Case {
 
 	switch {
 	case r.Chance(25):
-	case c.Cfg.Cache && r.Chance(80):
-		c.Cfg.TTL = vf.Pick(r, []string{"65s", "2m", "90500ms", "1h"})
 	case malformed && r.Chance(25):
 		c.Cfg.TTL = vf.Pick(r, []string{"1s", "999ms"})
 	default:
-		c.Cfg.TTL = vf.Pick(r, []string{"1001ms", "1500ms", "2s", "2750ms", "5s", "4999ms", "70s", "10m"})
+		// the cache stub runs on a virtual clock, so any ttl can be combined with a cache
+		c.Cfg.TTL = vf.Pick(r, []string{"1001ms", "1500ms", "2s", "2750ms", "5s", "4999ms", "5001ms", "6s", "30s", "65s", "70s", "2m", "90500ms", "10m", "1h"})
+	}
+
+	if r.Chance(35) {
+		c.Cfg.HasTwin = true
+		c.Cfg.Twin = vf.Pick(r, []string{"twin-issuer", "", "heimdall", "verif-issuer", "Verif-Issuer"})
 	}
 
 	if r.Chance(75) {
@@ -1702,21 +1835,63 @@ func c16Gen(pki *c16PKI, r *vf.Rand, malformed bool) c16Case {
 
 	nops := 2 + r.Intn(7)
 	cur := c.Store
+	prev := c16Store{}
+	subjects := []string{vf.Pick(r, c16Subjects), vf.Pick(r, c16Subjects)}
 
 	for i := 0; i < nops; i++ {
 		switch x := r.Intn(100); {
 		case x < 50:
-			op := c16Op{Kind: "exec", Sub: vf.Pick(r, c16Subjects[:2+r.Intn(3)])}
+			// few distinct requests per run so that cache hits happen; outputs / attributes vary with the subject fixed
+			op := c16Op{
+				Kind: "exec", Sub: vf.Pick(r, subjects),
+				Out: vf.Pick(r, []string{"o1", "o1", "o2"}), Attr: vf.Pick(r, []string{"a1", "a1", "a2"}),
+			}
 			if r.Chance(40) {
 				op.Ov = c16GenOverride(r, c.Cfg, malformed)
 			}
 
+			if c.Cfg.HasTwin && r.Chance(45) {
+				op.Twin = true
+			}
+
+			// reloads landing inside Execute (between the cache lookup and Sign): to another store, and
+			// often a second one back to what was there (roll-back)
+			if r.Chance(25) {
+				mid := c16NextStore(r, cur, malformed && r.Chance(30))
+				op.Mids = []c16Store{mid}
+
+				if !pki.render(mid).bad && r.Chance(50) {
+					op.Mids = append(op.Mids, cur)
+				} else if !pki.render(mid).bad {
+					prev = cur
+					cur = mid
+				}
+			}
+
 			c.Ops = append(c.Ops, op)
-		case x < 78:
+		case x < 58:
+			// the cache's clock: around the reuse window (ttl - 5s) and the ttl itself
+			ttl := c16TTL(c.Cfg)
+			d := vf.Pick(r, []time.Duration{
+				ttl - 5*time.Second - time.Millisecond, ttl - 5*time.Second, ttl - time.Second, ttl, 2 * ttl, time.Second,
+				20 * time.Second, 61 * time.Second,
+			})
+			if d < 0 {
+				d = time.Second
+			}
+
+			c.Ops = append(c.Ops, c16Op{Kind: "wait", Wait: d.String()})
+		case x < 64 && len(prev.Blocks) != 0:
+			// roll back to the store before the last one
+			back := prev
+			c.Ops = append(c.Ops, c16Op{Kind: "reload", Store: &back})
+			prev, cur = cur, back
+		case x < 80:
 			next := c16NextStore(r, cur, malformed && r.Chance(50))
 			c.Ops = append(c.Ops, c16Op{Kind: "reload", Store: &next})
 
 			if !pki.render(next).bad {
+				prev = cur
 				cur = next
 			}
 		default:
@@ -1822,6 +1997,61 @@ func c16Corpus() []c16Case {
 				{Kind: "exec", Sub: "alice"},
 			},
 		},
+		// C16-F2: the store is replaced by B between Execute's cache lookup (under A) and Sign; the B-signed token is
+		// filed under A's cache key; after the roll-back to A the next Execute hands out the B-token
+		{
+			Cfg:   c16Config{TTL: "2m", Cache: true},
+			Store: one(ec[0], "key-a"),
+			Ops: []c16Op{
+				{Kind: "exec", Sub: "alice", Mids: []c16Store{one(ec[1], "key-b")}},
+				{Kind: "reload", Store: st(one(ec[0], "key-a"))},
+				{Kind: "jwks"},
+				{Kind: "exec", Sub: "alice"},
+			},
+		},
+		// the same with the roll-back landing inside the same Execute
+		{
+			Cfg:   c16Config{TTL: "2m", Cache: true},
+			Store: one(ec[0], "key-a"),
+			Ops: []c16Op{
+				{Kind: "exec", Sub: "alice"},
+				{Kind: "exec", Sub: "bob", Mids: []c16Store{one(ec[1], "key-b"), one(ec[0], "key-a")}},
+				{Kind: "exec", Sub: "alice", Mids: []c16Store{one(ec[1], "key-b")}},
+				{Kind: "jwks"}, {Kind: "exec", Sub: "bob"},
+			},
+		},
+		// two catalogue finalizers differing only in signer.name on one cache: no token of the other issuer (audit B2)
+		{
+			Cfg:   c16Config{Name: "issuer-one", TTL: "2m", Cache: true, HasTwin: true, Twin: "issuer-two"},
+			Store: one(ec[0], "key1"),
+			Ops: []c16Op{
+				{Kind: "exec", Sub: "alice"}, {Kind: "exec", Sub: "alice", Twin: true},
+				{Kind: "exec", Sub: "alice"}, {Kind: "exec", Sub: "alice", Twin: true},
+			},
+		},
+		// outputs and subject attributes are part of the request: no stale custom claims (audit B5);
+		// subject ids are taken as they are (audit B4)
+		{
+			Cfg: c16Config{TTL: "2m", Cache: true, HasTpl: true, Claims: []c16Tmpl{
+				{Name: "o", Kind: "out"}, {Name: "a", Kind: "attr"}, {Name: "who", Kind: "subj"},
+			}},
+			Store: one(ec[0], "key1"),
+			Ops: []c16Op{
+				{Kind: "exec", Sub: " Bob ", Out: "o1", Attr: "a1"}, {Kind: "exec", Sub: " Bob ", Out: "o2", Attr: "a1"},
+				{Kind: "exec", Sub: " Bob ", Out: "o1", Attr: "a2"}, {Kind: "exec", Sub: " Bob ", Out: "o1", Attr: "a1"},
+				{Kind: "exec", Sub: "", Out: "o1", Attr: "a1"}, {Kind: "exec", Sub: "bob", Out: "o1", Attr: "a1"},
+			},
+		},
+		// the reuse window: ttl 30s, reusable for 25s of the cache's clock (audit B3)
+		{
+			Cfg:   c16Config{TTL: "30s", Cache: true},
+			Store: one(ec[0], "key1"),
+			Ops: []c16Op{
+				{Kind: "exec", Sub: "alice"}, {Kind: "wait", Wait: "24.999s"}, {Kind: "exec", Sub: "alice"},
+				{Kind: "wait", Wait: "1ms"}, {Kind: "exec", Sub: "alice"},
+				{Kind: "wait", Wait: "29s"}, {Kind: "exec", Sub: "alice"}, {Kind: "wait", Wait: "31s"}, {Kind: "exec", Sub: "alice"},
+			},
+		},
 		// the key id must match exactly: an earlier entry whose id merely ends with / starts with the configured one
 		{
 			Cfg: c16Config{KeyID: "key1", TTL: "2s"},
@@ -1838,6 +2068,20 @@ func c16Corpus() []c16Case {
 			},
 			Store: one(ec[1], "key1"),
 			Ops:   []c16Op{{Kind: "jwks"}, {Kind: "exec", Sub: "alice"}, {Kind: "reload", Store: st(one(rs[2], "key1"))}, {Kind: "exec", Sub: "alice"}, {Kind: "jwks"}},
+		},
+		// an expired issuing certificate makes the store unusable although the leaf is fine (audit B6)
+		{
+			Cfg:   c16Config{KeyID: "a"},
+			Store: c16Store{Layout: "keys-first", Blocks: []c16Block{{Key: ec[0], XKid: "a", Enc: "pkcs8", Chain: "int", Flaw: "int-expired"}}},
+			Ops:   []c16Op{{Kind: "exec", Sub: "alice"}},
+		},
+		{
+			Cfg:   c16Config{KeyID: "a"},
+			Store: one(ec[0], "a"),
+			Ops: []c16Op{
+				{Kind: "reload", Store: st(c16Store{Layout: "certs-first", Blocks: []c16Block{{Key: ec[1], XKid: "a", Enc: "pkcs8", Chain: "ca", Flaw: "ca-expired"}}})},
+				{Kind: "exec", Sub: "alice"}, {Kind: "jwks"},
+			},
 		},
 		// unsupported key size among the entries: panic in Entry.JWK (C19-F2)
 		{
@@ -1858,6 +2102,14 @@ func c16Tags(c c16Case, o c16Obs) ([]string, bool) {
 		switch c.Ops[i].Kind {
 		case "exec":
 			tags = append(tags, "exec:"+oo.Kind)
+
+			if len(c.Ops[i].Mids) != 0 {
+				tags = append(tags, fmt.Sprintf("exec:reload-inside:%d", len(c.Ops[i].Mids)))
+			}
+
+			if c.Ops[i].Twin {
+				tags = append(tags, "exec:twin")
+			}
 
 			if ov := c.Ops[i].Ov; ov != nil {
 				switch {
@@ -1890,6 +2142,8 @@ func c16Tags(c c16Case, o c16Obs) ([]string, bool) {
 					tokenAfterReload = true
 				}
 			}
+		case "wait":
+			tags = append(tags, "wait")
 		case "reload":
 			tags = append(tags, "reload:"+oo.Kind)
 
